@@ -106,13 +106,31 @@ fn main() {
                     // accessors after every step for hist/acc; the size and eq families only need
                     // the record itself
                     let with_acc = fam == "hist" || fam == "acc";
-                    cs.iter()
-                        .map(|c| {
-                            let mut s = String::new();
-                            exec_any(c, &mut s, with_acc);
-                            s
-                        })
-                        .collect()
+                    // execute the cases on all cores; the order of the parts is preserved
+                    let nthreads = std::thread::available_parallelism().map(|n| n.get()).unwrap_or(4).min(16);
+                    let chunk = (cs.len() + nthreads - 1) / nthreads.max(1);
+                    let mut parts: Vec<String> = Vec::with_capacity(cs.len());
+                    std::thread::scope(|sc| {
+                        let handles: Vec<_> = cs
+                            .chunks(chunk.max(1))
+                            .map(|group| {
+                                sc.spawn(move || {
+                                    group
+                                        .iter()
+                                        .map(|c| {
+                                            let mut s = String::new();
+                                            exec_any(c, &mut s, with_acc);
+                                            s
+                                        })
+                                        .collect::<Vec<String>>()
+                                })
+                            })
+                            .collect();
+                        for h in handles {
+                            parts.extend(h.join().expect("worker thread"));
+                        }
+                    });
+                    parts
                 }
                 _ => {
                     eprintln!("unknown family {fam}");
